@@ -104,6 +104,9 @@ def check(run: Run, ctx) -> None:
     known = findings.Known(run, PROP)
     g.run_corr(run, ctx, "vf.corr.c06", "status tables")
     g.run_corr(run, ctx, "vf.corr.gencode", "GenCode (handle on generated clients, both transports)", quick=0.4, thorough=3.0)
+    g.run_corr(run, ctx, "vf.corr.loader", "Loader (responses parsed under their declared keys, $ref resolution vs Pog.Loader)", quick=0.25, thorough=2.5)
+    g.run_oracle(run, ctx, g.Informational(known), "vf.corr.loader", "loader oracle on the real parse_operations (status = declared key, stream flag, parameter order)",
+                 {"LOADER-STREAM-FORMAT-ORDER": "-hazard", "LOADER-PROMO-NAME-COLLISION": "-hazard", "LOADER-POST-NAME-OVERWRITE": "-hazard"}, quick=0.3, thorough=3.0)
     run.cov["rule"] = (run.cov.get("rule") or "") + ("[oracle] random documents -> generated client -> every operation called with a fake server answering declared error "
                        "statuses plus a seeded sample (quick) / all (thorough) of 25 representative statuses in 100..599, through the bundled transport and a pass-through "
                        "transport; distinct by (document, operation, status, transport); non-trivial = status outside 2xx actually delivered to the client")
